@@ -33,6 +33,13 @@
                              — `Grid.chunk` (numpy → dask backing) is a history operation that changes no value:
                                every history theorem quantifies over histories containing it, and a source
                                differing only in its backing gives the same subset.
+  * `slice_keeps_supplied_edges` (`coh_supplied_en`, `request_en_kept`, `runHist_en_kept`)
+                             — a source-supplied `edge_node_connectivity` (rows in any order, each row in any
+                               orientation) is never replaced: after any history and after the read of
+                               `face_edge_connectivity` every slice starts with it is the same list of rows, the
+                               faces' edges are looked up in it (`lookupFE`), and the subset's recorded edge
+                               indices refer to it.  None of the slice theorems assumes (lo, hi) rows: `Pre` is
+                               C02's `Edges.Spec`, which compares unordered pairs (examples with `enSup`).
   * `efd_transport`, `efdTransport_of_pre`, `efd_history_independent_of_pre`
                              — `EFDTransport` PROVED from C03's `EdgeFaceOK` of the source's and the subset's
                                edge-face tables + "the two faces of an edge are distinct" (`mem_faceEdgesOf_sub`:
@@ -896,7 +903,9 @@ structure Coh (B : Base) (g : State) : Prop where
   ready : (g.en = some B.EN ∧ g.fe = some B.FE) ∨
     (g.fe = none ∧ B.EN = edges B.t ∧ B.FE = reshape B.w (faceEdges B.t).flatten ∧
       (faceEdges B.t).flatten.length = B.t.length * B.w ∧
-      (g.en = none ∨ (g.en = some B.EN ∧ g.inv = some (faceEdges B.t).flatten)))
+      (g.en = none ∨ (g.en = some B.EN ∧ g.inv = some (faceEdges B.t).flatten))) ∨
+    -- the source ships `edge_node_connectivity` only: it is kept, the faces' edges are looked up in it
+    (g.fe = none ∧ g.en = some B.EN ∧ g.inv = none ∧ lookupFE B.t B.EN = some B.FE)
 
 theorem optIs_some {α} {o : Option α} {v : α} (h : optIs o v) (hs : o.isSome = true) : o = some v := by
   rcases h with h | h
@@ -910,10 +919,11 @@ theorem getEN_coh {B : Base} {g : State} (h : Coh B g) :
   · rw [if_pos hs]; exact ⟨h, optIs_some h.en hs⟩
   · rw [if_neg hs]
     have hnone : g.en = none := by simpa using hs
-    rcases h.ready with ⟨h1, _⟩ | ⟨hfe, hE, hF, hL, _⟩
+    rcases h.ready with ⟨h1, _⟩ | ⟨hfe, hE, hF, hL, _⟩ | ⟨_, h1, _⟩
     · rw [hnone] at h1; cases h1
     · have e1 : (popEN g).en = some B.EN := by simp [popEN, h.t, hE]
-      refine ⟨{ h with en := Or.inr e1, fe := h.fe, ready := Or.inr ⟨by simpa [popEN] using hfe, hE, hF, hL, Or.inr ⟨e1, by simp [popEN, h.t]⟩⟩ }, e1⟩
+      refine ⟨{ h with en := Or.inr e1, fe := h.fe, ready := Or.inr (Or.inl ⟨by simpa [popEN] using hfe, hE, hF, hL, Or.inr ⟨e1, by simp [popEN, h.t]⟩⟩) }, e1⟩
+    · rw [hnone] at h1; cases h1
 
 theorem getFE_coh {B : Base} {g : State} (h : Coh B g) :
     ∃ g', getFE g = some g' ∧ Coh B g' ∧ g'.en = some B.EN ∧ g'.fe = some B.FE := by
@@ -921,32 +931,40 @@ theorem getFE_coh {B : Base} {g : State} (h : Coh B g) :
   by_cases hs : g.fe.isSome = true
   · rw [if_pos hs]
     have hfe := optIs_some h.fe hs
-    rcases h.ready with ⟨h1, _⟩ | ⟨h1, _⟩
+    rcases h.ready with ⟨h1, _⟩ | ⟨h1, _⟩ | ⟨h1, _⟩
     · exact ⟨g, rfl, h, h1, hfe⟩
+    · rw [h1] at hfe; cases hfe
     · rw [h1] at hfe; cases hfe
   · rw [if_neg hs]
     have hnone : g.fe = none := by simpa using hs
-    rcases h.ready with ⟨_, h2⟩ | ⟨_, hE, hF, hL, hen⟩
+    rcases h.ready with ⟨_, h2⟩ | ⟨_, hE, hF, hL, hen⟩ | ⟨_, hen, hinv, hlk⟩
     · rw [hnone] at h2; cases h2
-    · -- after the optional rebuild, `en` and `inv` are this grid's
-      have key : ∃ g1 : State, (if (g.en.isNone || g.inv.isNone) = true then popEN g else g) = g1 ∧
-          g1.en = some B.EN ∧ g1.inv = some (faceEdges B.t).flatten ∧ g1.t = B.t ∧ g1.w = B.w ∧
-          g1.fe = none ∧ g1.npf = g.npf ∧ g1.nf = g.nf ∧ g1.ef = g.ef ∧ g1.ff = g.ff ∧ g1.holes = g.holes := by
-        rcases hen with hen | ⟨hen, hinv⟩
-        · refine ⟨popEN g, by simp [hen], ?_⟩
-          simp [popEN, h.t, hE, h.w, hnone]
-        · refine ⟨g, by simp [hen, hinv], hen, hinv, h.t, h.w, hnone, rfl, rfl, rfl, rfl, rfl⟩
-      obtain ⟨g1, hg1, e1, e2, e3, e4, e5, e6, e7, e8, e9, e10⟩ := key
-      simp only [] at hg1 ⊢
-      rw [hg1]
-      simp only [e2, e3, e4]
-      rw [if_pos hL]
-      refine ⟨_, rfl, ?_, by simp [e1], by simp [hF]⟩
-      exact { w := rfl, t := rfl, en := Or.inr (by simpa using e1),
-              fe := Or.inr (by simp [hF]), npf := by simpa [e6] using h.npf, nf := by simpa [e7] using h.nf,
-              ef := by simpa [e8] using h.ef, ff := by simpa [e9] using h.ff,
-              holes := by simpa [e10] using h.holes,
-              ready := Or.inl ⟨by simpa using e1, by simp [hF]⟩ }
+    · -- the edges are this grid's own construction: `inverse_indices` (rebuilt if need be) is reshaped
+      have fin : ∀ g1 : State, g1.en = some B.EN → g1.inv = some (faceEdges B.t).flatten → g1.t = B.t →
+          g1.w = B.w → g1.npf = g.npf → g1.nf = g.nf → g1.ef = g.ef → g1.ff = g.ff → g1.holes = g.holes →
+          ∃ g', finishFE g1 = some g' ∧ Coh B g' ∧ g'.en = some B.EN ∧ g'.fe = some B.FE := by
+        intro g1 e1 e2 e3 e4 e6 e7 e8 e9 e10
+        unfold finishFE
+        rw [e2]
+        simp only [e3, e4]
+        rw [if_pos hL]
+        refine ⟨_, rfl, ?_, e1, by simp [hF]⟩
+        exact { w := rfl, t := rfl, en := Or.inr e1,
+                fe := Or.inr (by simp [hF]), npf := by simpa [e6] using h.npf, nf := by simpa [e7] using h.nf,
+                ef := by simpa [e8] using h.ef, ff := by simpa [e9] using h.ff,
+                holes := by simpa [e10] using h.holes,
+                ready := Or.inl ⟨e1, by simp [hF]⟩ }
+      rcases hen with hen | ⟨hen, hinv⟩
+      · rw [hen]
+        exact fin (popEN g) (by simp [popEN, h.t, hE]) (by simp [popEN, h.t]) h.t h.w rfl rfl rfl rfl rfl
+      · rw [hen, hinv]
+        exact fin g hen hinv h.t h.w rfl rfl rfl rfl rfl
+    · -- the source's own edge table is kept: the faces' edges are looked up in it
+      rw [hen, hinv]
+      simp only [h.t, hlk]
+      refine ⟨_, rfl, ?_, rfl, rfl⟩
+      exact { w := h.w, t := rfl, en := Or.inr rfl, fe := Or.inr rfl, npf := h.npf, nf := h.nf, ef := h.ef,
+              ff := h.ff, holes := h.holes, ready := Or.inl ⟨rfl, rfl⟩ }
 
 theorem getNPF_coh {B : Base} {g : State} (h : Coh B g) :
     Coh B (getNPF g) ∧ (getNPF g).npf = some B.N ∧ (getNPF g).en = g.en ∧ (getNPF g).fe = g.fe := by
@@ -1146,7 +1164,7 @@ theorem coh_fresh (w : Nat) (t : Table) (hw : ∀ r ∈ t, r.length = w) :
     Coh { w := w, t := t, EN := edges t, FE := reshape w (faceEdges t).flatten } { w := w, t := t } := by
   refine { w := rfl, t := rfl, en := Or.inl rfl, fe := Or.inl rfl, npf := Or.inl rfl, nf := Or.inl rfl,
            ef := Or.inl rfl, ff := Or.inl rfl, holes := Or.inl rfl,
-           ready := Or.inr ⟨rfl, rfl, rfl, ?_, Or.inl rfl⟩ }
+           ready := Or.inr (Or.inl ⟨rfl, rfl, rfl, ?_, Or.inl rfl⟩) }
   have : (faceEdges t).length = t.length := by simp [faceEdges]
   rw [← this]
   apply flatten_length_const
@@ -1586,21 +1604,34 @@ def EfdOK (B : Base) (g : State) : Prop := optIs g.efd B.EFD
 theorem getEN_efd (g : State) : (getEN g).efd = g.efd := by
   unfold getEN; split <;> simp [popEN]
 
+theorem finishFE_efd {g g' : State} (h : finishFE g = some g') : g'.efd = g.efd := by
+  unfold finishFE at h
+  cases hinv : g.inv with
+  | none => simp [hinv] at h
+  | some v =>
+    simp only [hinv] at h
+    by_cases hl : v.length = g.t.length * g.w
+    · rw [if_pos hl] at h; rw [← Option.some.inj h]
+    · rw [if_neg hl] at h; cases h
+
 theorem getFE_efd {g g' : State} (h : getFE g = some g') : g'.efd = g.efd := by
   unfold getFE at h
   by_cases hs : g.fe.isSome = true
   · rw [if_pos hs] at h; rw [← Option.some.inj h]
   · rw [if_neg hs] at h
-    simp only [] at h
-    generalize hg1 : (if (g.en.isNone || g.inv.isNone) = true then popEN g else g) = g1 at h
-    have e1 : g1.efd = g.efd := by rw [← hg1]; split <;> rfl
-    cases hinv : g1.inv with
-    | none => simp [hinv] at h
-    | some v =>
-      simp only [hinv] at h
-      by_cases hl : v.length = g1.t.length * g1.w
-      · rw [if_pos hl] at h; rw [← Option.some.inj h]; exact e1
-      · rw [if_neg hl] at h; cases h
+    cases hen : g.en with
+    | none =>
+      cases hinv : g.inv <;> (simp only [hen, hinv] at h; exact (finishFE_efd h).trans rfl)
+    | some E =>
+      cases hinv : g.inv with
+      | some v =>
+        simp only [hen, hinv] at h
+        exact finishFE_efd h
+      | none =>
+        simp only [hen, hinv] at h
+        cases hl : lookupFE g.t E with
+        | some F => simp only [hl] at h; rw [← Option.some.inj h]
+        | none => simp only [hl] at h; exact (finishFE_efd h).trans rfl
 
 theorem getNPF_efd (g : State) : (getNPF g).efd = g.efd := by
   unfold getNPF; split <;> rfl
@@ -2023,6 +2054,114 @@ theorem efd_backing_irrelevant {B : Base} {g : State} (h : Coh B g) (he : EfdOK 
   have he' : EfdOK B { g with backing := b } := he
   rw [efd_history_independent (coh_backing h b) he' hidx hT, efd_history_independent h he hidx hT]
 
+/-! ## 7i. a source-supplied edge table is kept, row for row -/
+
+/-- a grid that ships `edge_node_connectivity` only (rows in ANY order, each row in ANY orientation) is
+    coherent with it and with the faces' edges looked up in it -/
+theorem coh_supplied_en (w : Nat) (t : Table) (EN : List (Int × Int)) (FE : Table)
+    (h : lookupFE t EN = some FE) :
+    Coh { w := w, t := t, EN := EN, FE := FE } { w := w, t := t, en := some EN } :=
+  { w := rfl, t := rfl, en := Or.inr rfl, fe := Or.inl rfl, npf := Or.inl rfl, nf := Or.inl rfl,
+    ef := Or.inl rfl, ff := Or.inl rfl, holes := Or.inl rfl, ready := Or.inr (Or.inr ⟨rfl, rfl, rfl, h⟩) }
+
+theorem getNF_en (g : State) : (getNF g).en = g.en := by unfold getNF; split <;> rfl
+
+theorem getEF_en {B : Base} {g g' : State} (h : Coh B g) (hen : g.en = some B.EN)
+    (hr : getEF g = some g') : g'.en = some B.EN := by
+  unfold getEF at hr
+  split at hr
+  · rw [← Option.some.inj hr]; exact hen
+  · obtain ⟨g1, hg1, c1, en1, _⟩ := getFE_coh h
+    rw [hg1] at hr
+    simp only [Option.bind_eq_bind, Option.bind_some, Option.pure_def] at hr
+    rw [← Option.some.inj hr]
+    show (getNPF (getEN g1)).en = some B.EN
+    rw [(getNPF_coh (getEN_coh c1).1).2.2.1]
+    exact (getEN_coh c1).2
+
+/-- no request replaces an edge table that is there -/
+theorem request_en_kept {B : Base} {g g' : State} (h : Coh B g) (hen : g.en = some B.EN) (v : Var)
+    (hr : request g v = some g') : g'.en = some B.EN := by
+  cases v with
+  | edgeNode => cases hr; exact (getEN_coh h).2
+  | faceEdge =>
+    obtain ⟨g2, h2, _, e2, _⟩ := getFE_coh h
+    have : request g .faceEdge = getFE g := rfl
+    rw [this, h2] at hr; rw [← Option.some.inj hr]; exact e2
+  | nPerFace => cases hr; rw [(getNPF_coh h).2.2.1]; exact hen
+  | nodeFace => cases hr; rw [getNF_en]; exact hen
+  | edgeFace => exact getEF_en h hen hr
+  | faceFace =>
+    have hr' : getFF g = some g' := hr
+    unfold getFF at hr'
+    split at hr'
+    · rw [← Option.some.inj hr']; exact hen
+    · cases h1 : getEF g with
+      | none => rw [h1] at hr'; cases hr'
+      | some g1 =>
+        rw [h1] at hr'
+        simp only [Option.bind_eq_bind, Option.bind_some, Option.pure_def] at hr'
+        rw [← Option.some.inj hr']
+        have := getEF_en h hen h1
+        exact this
+  | holes =>
+    have hr' : getHoles g = some g' := hr
+    unfold getHoles at hr'
+    split at hr'
+    · rw [← Option.some.inj hr']; exact hen
+    · cases h1 : getEF g with
+      | none => rw [h1] at hr'; cases hr'
+      | some g1 =>
+        rw [h1] at hr'
+        simp only [Option.bind_eq_bind, Option.bind_some, Option.pure_def] at hr'
+        rw [← Option.some.inj hr']
+        have := getEF_en h hen h1
+        exact this
+  | edgeFaceDist =>
+    have hr' : getEFD g = some g' := hr
+    unfold getEFD at hr'
+    split at hr'
+    · rw [← Option.some.inj hr']; exact hen
+    · cases h1 : getEF g with
+      | none => rw [h1] at hr'; cases hr'
+      | some g1 =>
+        rw [h1] at hr'
+        simp only [Option.bind_eq_bind, Option.bind_some, Option.pure_def] at hr'
+        rw [← Option.some.inj hr']
+        have := getEF_en h hen h1
+        exact this
+  | chunk => rw [← Option.some.inj hr]; exact hen
+
+theorem runHist_en_kept {B : Base} {g : State} (h : Coh B g) (hen : g.en = some B.EN) (hist : List Var) :
+    ∃ g', runHist g hist = some g' ∧ Coh B g' ∧ g'.en = some B.EN := by
+  induction hist generalizing g with
+  | nil => exact ⟨g, rfl, h, hen⟩
+  | cons v vs ih =>
+    obtain ⟨g1, h1, c1⟩ := request_coh h v
+    obtain ⟨g2, h2, c2, e2⟩ := ih c1 (request_en_kept h hen v h1)
+    exact ⟨g2, by simp [runHist, h1, h2], c2, e2⟩
+
+/-- **the source's own edge table survives every selection**: for a coherent source that has an
+    `edge_node_connectivity` (supplied in any row order and orientation, or derived), after ANY history of
+    requests and after the read of `face_edge_connectivity` every slice starts with, the table is still the
+    same list of rows, the faces' edges refer to ITS numbering, and so do the subset's recorded edge
+    indices (they are `edgeSel` of exactly these tables) -/
+theorem slice_keeps_supplied_edges {B : Base} {g : State} (h : Coh B g) (hen : g.en = some B.EN)
+    (hist : List Var) :
+    ∃ g1 g2, runHist g hist = some g1 ∧ getFE g1 = some g2 ∧ g2.en = some B.EN ∧ g2.fe = some B.FE ∧
+      ∀ idx, (g1.slice idx).map (fun u => u.recd)
+        = some (some ((sliceFaces ⟨B.t, B.EN, B.FE⟩ idx).nodeIdx, idx, (sliceFaces ⟨B.t, B.EN, B.FE⟩ idx).edgeIdx)) := by
+  obtain ⟨g1, h1, c1, _⟩ := runHist_en_kept h hen hist
+  obtain ⟨g2, h2, c2, e2, f2⟩ := getFE_coh c1
+  refine ⟨g1, g2, h1, h2, e2, f2, ?_⟩
+  intro idx
+  have hEN : getEN g2 = g2 := by unfold getEN; rw [e2]; rfl
+  have hsrc : g2.src = { t := B.t, EN := B.EN, FE := B.FE } := by simp [State.src, c2.t, e2, f2]
+  unfold State.slice State.sliceWith
+  rw [h2]
+  simp only [Option.bind_eq_bind, Option.bind_some, hEN, Option.pure_def, Option.map_some, hsrc]
+  rfl
+
 /-! ## 8. /repo before the repair: proved counterexamples, and non-vacuity -/
 
 /-- two triangles sharing the edge (1,2) -/
@@ -2133,5 +2272,23 @@ example : EFDTransport { w := 4, t := [[0, 1, 5, 4], [1, 2, 6, 5], [2, 3, 7, 6]]
     seeded in-place write on a dask-backed copy breaks exactly this) -/
 example : ((runHist g2 [.edgeFaceDist, .chunk, .faceFace]).bind (fun g => g.slice [1])).bind (fun u => u.viewEFD [.chunk])
     = some [none, none, none] := by decide
+
+/-- a source-supplied edge table: the derived rows of the two triangles in ANOTHER order, three of them
+    listing the larger node first.  The hypotheses of the slice theorems are met as they stand (C02's
+    specification compares unordered pairs), the faces' edges are looked up in it, and the subset's
+    recorded edges `[0, 2, 4]` are rows of THIS table with their orientation kept -/
+def enSup : List (Int × Int) := [(2, 1), (0, 1), (3, 2), (2, 0), (1, 3)]
+example : lookupFE t2 enSup = some [[1, 0, 3], [0, 4, 2]] := by decide
+example : Pre 4 3 ⟨t2, enSup, [[1, 0, 3], [0, 4, 2]]⟩ [1] := by decide
+example : Slice.Spec ⟨t2, enSup, [[1, 0, 3], [0, 4, 2]]⟩ 3 [1] (sliceFaces ⟨t2, enSup, [[1, 0, 3], [0, 4, 2]]⟩ [1]).obs :=
+  slice_meets_spec (n := 4) (by decide)
+example : sliceFaces ⟨t2, enSup, [[1, 0, 3], [0, 4, 2]]⟩ [1] =
+    { nodeIdx := [1, 2, 3], faceIdx := [1], edgeIdx := [0, 2, 4], t := [[1, 0, 2]],
+      EN := [(1, 0), (2, 1), (0, 2)], FE := [[0, 2, 1]] } := by decide
+example := slice_keeps_supplied_edges (coh_supplied_en 3 t2 enSup [[1, 0, 3], [0, 4, 2]] (by decide)) rfl
+  [.holes, .chunk, .edgeFaceDist]
+/-- had the lookup failed to match the rows listing the larger node first (the seeded regression), the
+    edges would have been rebuilt: another table, another numbering -/
+example : edges t2 ≠ enSup := by decide
 
 end UxVerif.C09
